@@ -94,6 +94,8 @@ struct Config {
     bool offer_ticket_ext = false; // client: send an empty session_ticket extension
     Bytes client_ticket;           // client: with offer_ticket_ext, put these bytes into the extension (a ticket the server never issued)
     bool ack_ticket_ext = false;   // server: acknowledge session_ticket (then NewSessionTicket is a legal message)
+    Bytes ticket_master;           // server, 48 bytes: the master secret inside the ticket this server issued; a ClientHello that carries a non-empty ticket is then
+                                   // resumed from it (RFC 5077) whatever its session id is; the ServerHello session id is fresh or, with server_empty_session_id, empty
     bool server_empty_session_id = false; // server: ServerHello carries an empty session id (not resumable by id; RFC 5077 ticket-only servers do this)
     Bytes master_override;         // 48 bytes: use this master secret wherever the puppet would take the resumed session's secret (or, lacking any key exchange,
                                    // derive one from an empty premaster) - "wrong session secret" deviations; a ClientKeyExchange still computes the real one
@@ -154,7 +156,7 @@ private:
 
 // The legal flat trace the puppet sends for a configuration (no application data):
 //   client: ClientHello | [Certificate] ClientKeyExchange [CertificateVerify] CCS Finished           (resumed: ClientHello | CCS Finished)
-//   server: ServerHello Certificate [ServerKeyExchange] [CertificateRequest] ServerHelloDone | [NewSessionTicket] CCS Finished   (resumed: ServerHello CCS Finished)
+//   server: ServerHello Certificate [ServerKeyExchange] [CertificateRequest] ServerHelloDone | [NewSessionTicket] CCS Finished   (resumed: ServerHello [NewSessionTicket] CCS Finished)
 //           NewSessionTicket is included iff cfg.ack_ticket_ext (the caller knows that the client offers the SessionTicket extension)
 std::vector<Step> legal_script(const Config &cfg, bool resumed = false);
 
